@@ -51,6 +51,7 @@ theorem evalFml_congr (e : Fml) (env env' : Nat → EV) (h : ∀ j, j ∈ e.refs
       List.map_congr_left fun j hj => by rw [h j (by simpa [Fml.refs] using hj)]
     simp [evalFml, this]
   | idx r row col => simp [evalFml, h r (by simp [Fml.refs])]
+  | isum r1 r2 pos => simp [evalFml, h r1 (by simp [Fml.refs])]
 
 theorem sem_local (specs : List Spec) : Local (mkWb specs) (sem specs) := by
   intro i e e' h
